@@ -15,7 +15,7 @@ EXPLANATION = (
     "ack, remover); the field is private. R4: the client acknowledges exactly the mutate messages it has consumed: the acknowledgement "
     "write sits behind the `message.update_tick <= current update tick` test, carries the index decoded from that message, is reached on every path on which the "
     "message leaves the buffer, and the collected buffer is sent once, after consuming, outside loops. R5: an acknowledgement covers exactly the entities whose data "
-    "travelled in that message (C10.R1). R6: the recycled entity lists behind the acknowledgement table are empty when reused.")
+    "travelled in that message (C10.R1). R6: the recycled entity lists behind the acknowledgement table are empty when reused. R7: message indices restart with every connection, so the buffer of waiting mutate messages is emptied unconditionally when the client disconnects - a message buffered in one connection is never consumed (and acknowledged) in the next.")
 NOT_DECIDED = "re-send liveness (a mutation keeps being re-sent every tick until acknowledged) over arbitrary loss patterns; traffic at rest as a quantity"
 TRUSTED_BASE = ["bevy_ecs::component::Tick::is_newer_than", "hash-map remove/get_mut contracts"]
 
@@ -229,13 +229,23 @@ def r2_ack(ctx):
                 okn = True
         ctx.check(okn, "ack/forward-only", site_of(ack, bb),
                   "the store is not guarded by `!stored.is_newer_than(recorded, now)`: a late acknowledgement could move the baseline backwards or a newer baseline could be overwritten")
-    # entities iterated are those recorded for the message
-    its = [bb for bb, t in ack.calls() if callee_decl(t).endswith("IntoIterator::into_iter")]
-    ok = False
-    for bb in its:
-        for o in tr.operand(ack.blocks[bb].term["args"][0]):
-            if o.kind == "call" and o.data == rb and o.path and o.path[-1][2] == "entities":
-                ok = True
+    # the entities whose baseline is written are those recorded for the message: every slot lookup is keyed by a value that comes out of
+    # an iteration (by reference, by value, draining, ...) over the removed record's entity list
+    def from_record(op):
+        for (k, d) in dep_closure(ack, op):
+            if k != "call":
+                continue
+            for a in ack.blocks[d].term.get("args") or []:
+                for o in tr.operand(a):
+                    if o.kind == "call" and o.data == rb and any(e[0] == "f" and e[2] == "entities" for e in o.path):
+                        return True
+        return False
+    slots = sorted({slot for (kind, bb, i, val, slot) in stores})
+    ok = bool(slots)
+    for sl in slots:
+        st = ack.blocks[sl].term
+        if len(st.get("args") or []) < 2 or not from_record(st["args"][1]):
+            ok = False
     ctx.check(ok, "ack/iterates-recorded-entities", site_of(ack), "the acknowledgement is not applied to the entities recorded for that message")
 
 
@@ -435,6 +445,21 @@ def r6_ack_list_pool(ctx):
     ctx.instances[before:] = keep
 
 
+def r7_acks_stay_in_their_connection(ctx):
+    """Message indices restart with every connection, so an acknowledgement is only meaningful inside the connection whose message it
+    names. The client acknowledges a buffered mutate message when it consumes it: a message buffered in one connection and consumed in
+    the next acknowledges an index of the new connection that the client never received - if that message is lost its data is skipped.
+    The buffer of waiting mutate messages is therefore emptied, unconditionally, when the client disconnects (C09.R1 restricted to
+    that buffer)."""
+    import rules.C09 as C09
+    before = len(ctx.instances)
+    C09.r1_client(ctx)
+    keep = [i for i in ctx.instances[before:] if "BufferedMutations" in i["key"] or i.get("kind") == "anchor-missing"]
+    ctx.instances[before:] = keep
+    if not any("BufferedMutations" in i["key"] for i in keep):
+        ctx.bad("client/BufferedMutations/anchor", "", "the buffer of waiting mutate messages was not found among the client's session state", kind="anchor-missing")
+
+
 def r20_unconditional_mutators(ctx):
     """Mutators this property relies on always perform their effect (shared table in rules/mutators.py)."""
     import rules.mutators as mutators
@@ -448,6 +473,7 @@ RULES = [
     ("C11.R4", "the client acknowledges exactly the messages it has consumed, with their own index, and always sends the acks", r4_client_acks, 8, ["default", "all-features", "client-only"]),
     ("C11.R5", "an acknowledgement covers exactly the entities whose data travelled in that message, so acknowledging one message never skips data of another (same rule as C10.R1)", r5_ack_lists, 12, ["default", "all-features", "server-only"]),
     ("C11.R6", "recycled acknowledgement entity lists are empty when reused (an ack never covers entities of an earlier message)", r6_ack_list_pool, 1, ["default", "all-features", "server-only"]),
+    ("C11.R7", "acknowledgements stay inside their connection: mutate messages still buffered at a disconnect are dropped, so the next connection never acknowledges their indices (C09.R1 restricted to that buffer)", r7_acks_stay_in_their_connection, 1, ["default", "all-features", "client-only"]),
     ("C11.R20", "mutators this property relies on always perform their effect (rules/mutators.py): no early return, no guard outside the allowed set", r20_unconditional_mutators, 3, ["default", "all-features"]),
 ]
 THOROUGH_CONFIGS = ["default", "all-features", "server-only", "client-only"]
